@@ -354,7 +354,29 @@ class Chain:
 
 # ----------------------------------------------------------------------------- loggers / entry points
 VIAS = ["direct", "bind", "patch", "opt_bind", "bind_opt", "patch_opt", "opt_patch", "opt_opt", "opt_flags",
-        "opt_then_default", "bind_patch_opt"]
+        "opt_then_default", "bind_patch_opt", "opt_any", "opt_any", "opt_any_bind"]
+
+
+def opt_keywords(logger):
+    """every keyword of the public opt() signature except depth, in signature order (read from the implementation, so
+    deprecated spellings such as ansi= and options added later are part of the alphabet)"""
+    import inspect
+    return [p.name for p in inspect.signature(logger.opt).parameters.values()
+            if p.kind is p.KEYWORD_ONLY and p.name != "depth"]
+
+
+def opt_any(logger, depth, flags):
+    """opt(depth=depth, <every other keyword set or left out according to the bits of flags>); two bits per keyword:
+    00/01 = left out, 10 = False-like, 11 = True-like; warnings of deprecated spellings are filtered"""
+    import warnings
+    kw = {}
+    for i, name in enumerate(opt_keywords(logger)):
+        b = (flags >> (2 * i)) & 3
+        if b >= 2:
+            kw[name] = (b == 3) if name != "exception" else (True if b == 3 else None)
+    with warnings.catch_warnings():
+        warnings.simplefilter("ignore")
+        return logger.opt(depth=depth, **kw), kw
 
 
 def _noop_patcher(record):
@@ -385,6 +407,10 @@ def derive(logger, via, depth, rng_flags):
     if via == "opt_flags":
         rec, lazy, colors, raw, capture = [bool(rng_flags >> i & 1) for i in range(5)]
         return logger.opt(depth=depth, record=rec, lazy=lazy, colors=colors, raw=raw, capture=capture), depth
+    if via == "opt_any":
+        return opt_any(logger, depth, rng_flags)[0], depth
+    if via == "opt_any_bind":
+        return opt_any(logger.bind(a=1), depth, rng_flags)[0].bind(b=2), depth
     if via == "opt_then_default":
         return logger.opt(depth=depth).opt(), 0
     if via == "bind_patch_opt":
@@ -534,10 +560,10 @@ def make_jobs(chain, rng, ctx, full_sweep, total_hint):
             for via in VIAS:
                 for leaf in sorted(set(leaves_plain)):
                     for m in METHODS:
-                        jobs.append({"leaf": leaf, "method": m, "via": via, "depth": d, "flags": rng.below(64), "reraise": False})
+                        jobs.append({"leaf": leaf, "method": m, "via": via, "depth": d, "flags": rng.below(1 << 16), "reraise": False})
                 for leaf in CATCH_LEAVES:
                     for rr in (False, True):
-                        jobs.append({"leaf": leaf, "method": "info", "via": via, "depth": d, "flags": rng.below(64), "reraise": rr})
+                        jobs.append({"leaf": leaf, "method": "info", "via": via, "depth": d, "flags": rng.below(1 << 16), "reraise": rr})
         return jobs
     depths = list(range(0, total_hint + 4)) if full_sweep else [rng.range(0, total_hint + 3) for _ in range(6)]
     for d in depths:
@@ -550,7 +576,7 @@ def make_jobs(chain, rng, ctx, full_sweep, total_hint):
         if rng.chance(12):
             rn = [rng.choice(["thread", "thread", "process"]), rng.choice(ACTOR_NAMES)]
         jobs.append({"leaf": leaf, "method": rng.choice(METHODS), "via": rng.choice(VIAS), "depth": d,
-                     "flags": rng.below(64), "reraise": rng.chance(15), "rename": rn})
+                     "flags": rng.below(1 << 16), "reraise": rng.chance(15), "rename": rn})
     return jobs
 
 
